@@ -202,6 +202,26 @@ func maprangeAmbients(c *corpus) []maprangeAmbient {
 	return uniq
 }
 
+// one row per (file, function, kind, what), ordered by file and line
+func maprangeSortRows(rows []maprangeAmbient) []maprangeAmbient {
+	seen := map[string]bool{}
+	var uniq []maprangeAmbient
+	for _, a := range rows {
+		k := a.file + "|" + a.fn + "|" + a.kind + "|" + a.what
+		if !seen[k] {
+			seen[k] = true
+			uniq = append(uniq, a)
+		}
+	}
+	sort.SliceStable(uniq, func(i, j int) bool {
+		if uniq[i].file != uniq[j].file {
+			return uniq[i].file < uniq[j].file
+		}
+		return uniq[i].line < uniq[j].line
+	})
+	return uniq
+}
+
 func init() {
 	register("MapRangeTable", func(c *corpus) (string, error) {
 		sites := maprangeSites(c)
@@ -223,6 +243,8 @@ func init() {
 	})
 	register("AmbientTable", func(c *corpus) (string, error) {
 		rows := maprangeAmbients(c)
+		rows = append(rows, maprangeSortRows(maprangeProcState(c))...)
+		rows = append(rows, maprangeSortRows(maprangeLocalTime(c))...)
 		var b strings.Builder
 		b.WriteString("(* GENERATED by tools/goextract (emit_maprange.go) from the repository source - do not edit.\n")
 		b.WriteString("   Goroutines, select, wall clock, randomness, process environment in x/, types/, app/\n")
